@@ -142,23 +142,45 @@ def main(argv=None):
                       {"kind": "direct", "text": t2, "permuted": t1, "error": c1.err}, finding_key="C10-headerless-block-absorbed")
     # directed: a text that defines one name twice, differently, in two blocks of one component is not reorderable; the
     # only order-independent outcome is the same verdict for every order of the two blocks
-    for i in range(4 if a.tier == "quick" else 60):
+    for i in range(9 if a.tier == "quick" else 90):
         m0 = gen.model(n_comps=rng.choice([1, 2]), n_params=rng.choice([2, 3]), n_inters=rng.choice([2, 3, 4]), p_unused=0.0)
         eb = [b for b in m0["blocks"] if b["kind"] == "expressions" and b["lines"]]
         if not eb:
             continue
         b0 = rng.choice(eb)
         ln = rng.choice(b0["lines"])
+        summ = lang.model_summary(m0)
+        others_n = [x_ for x_ in summ["states"] + summ["parameters"] if x_ not in lang.variables(ln["expr"])]
+        variant = ["same_deps", "other_deps", "declaration"][i % 3]
+        if variant == "other_deps" and others_n:
+            # the second definition reads one more name (another dependency set)
+            texpr = ("bin", "+", ln["expr"], ("var", rng.choice(others_n)))
+        else:
+            texpr = ("bin", "+", ln["expr"], ("bin", "*", ("num", "0"), ln["expr"]))
         twin = {"kind": "expressions", "comps": list(b0.get("comps") or []),
-                "lines": [{"name": ln["name"], "expr": ("bin", "+", ln["expr"], ("bin", "*", ("num", "0"), ln["expr"])), "comment": None}]}
+                "lines": [{"name": ln["name"], "expr": texpr, "comment": None}]}
+        if variant == "declaration":
+            # a parameter / state declared twice with different values, in two blocks of one component
+            decls_ = [b for b in m0["blocks"] if b["kind"] in ("parameters", "states") and b["entries"] and b.get("comps")]
+            if decls_:
+                b0 = rng.choice(decls_)
+                en = rng.choice(b0["entries"])
+                twin = {"kind": b0["kind"], "comps": list(b0["comps"]),
+                        "entries": [{"name": en["name"], "value": ("bin", "+", en["value"], ("num", "1")), "unit": None, "desc": None}]}
+                ln = {"name": en["name"]}
         if not twin["comps"]:
             continue    # two header-less blocks cannot be kept apart in the text
         others = [b for b in m0["blocks"] if b is not b0]
         decl = [b for b in others if b["kind"] != "expressions"]
         ex = [b for b in others if b["kind"] == "expressions" and b.get("comps")]
         hl = [b for b in others if b["kind"] == "expressions" and not b.get("comps")]
-        t1 = lang.render_model({"blocks": decl + hl + [b0] + ex + [twin], "shape": "dup", "unused": []}, rng)
-        t2 = lang.render_model({"blocks": decl + hl + [twin] + ex + [b0], "shape": "dup", "unused": []}, rng)
+        if twin["kind"] == "expressions":
+            t1 = lang.render_model({"blocks": decl + hl + [b0] + ex + [twin], "shape": "dup", "unused": []}, rng)
+            t2 = lang.render_model({"blocks": decl + hl + [twin] + ex + [b0], "shape": "dup", "unused": []}, rng)
+        else:
+            rest_d = [b for b in decl if b is not b0]
+            t1 = lang.render_model({"blocks": rest_d + [b0, twin] + hl + ex + ([] if b0 in decl else [b0]), "shape": "dup", "unused": []}, rng)
+            t2 = lang.render_model({"blocks": rest_d + [twin, b0] + hl + ex, "shape": "dup", "unused": []}, rng)
         def verdict(t):
             cc = pipeline.Case(drv, t)
             if cc.err is not None:
@@ -167,7 +189,7 @@ def main(argv=None):
         def dup_case():
             v1, c1 = verdict(t1)
             v2, c2 = verdict(t2)
-            rep.count("duplicate_in_two_blocks:" + v1[0])
+            rep.count("duplicate_in_two_blocks:" + variant + ":" + v1[0])
             if v1[0] != v2[0] or (v1[0] == "accepted" and (v1[1] != v2[1] or c1.ode != c2.ode)):
                 rep.violation(f"a text with two differing definitions of {ln['name']} in two blocks of one component is "
                               f"{v1[0]} in one block order and {v2[0]}{' with different code' if v2[0] == v1[0] else ''} in the other",
